@@ -146,14 +146,19 @@ def guards(ctx, f_init, f_solve):
     repo = ctx.repo
     rg = raise_guards(f_init)
 
+    from ..dataflow import expand
+
+    def xt(t):
+        return expand(f_init.node, t)
+
     def find(pred):
-        return [(n, gs) for n, gs in rg if gs and pred(norm(gs[-1][0].test))]
+        return [(n, gs) for n, gs in rg if gs and pred(norm(xt(gs[-1][0].test)))]
     # epsilon > 1
     hit = find(lambda t: "epsilon" in t and ">" in t)
     ok = False
     det = None
     if len(hit) == 1:
-        test = hit[0][1][-1][0].test
+        test = xt(hit[0][1][-1][0].test)
         cmps = [c for c in ast.walk(test) if isinstance(c, ast.Compare)]
         det = norm(test)
         ok = len(cmps) == 1 and isinstance(cmps[0].ops[0], ast.Gt) and isinstance(cmps[0].comparators[0], ast.Constant) \
